@@ -526,9 +526,37 @@ Print Assumptions C02_nd_contract_keeps_shape.
 (** non-vacuity: a (3, 2) value under both alignments, each refusal, the shape-changing calls torch accepts, a (2, 2) weighted value
     with non-boolean weights, the two rules that are NOT the code (weight of one side for all rows; mask aligned on the wrong
     side) giving something else on the same input, a value weighted on one side only *)
-Definition C02_nd_select_examples_statement := ltac:(let t := type of nd_select_examples in exact t).
-Theorem C02_nd_select_examples : C02_nd_select_examples_statement.
+Local Open Scope Z_scope.
+Theorem C02_nd_select_examples :
+  (* right-broadcasting: rows 0 and 2 forked, row 1 current *)
+  twhere (true, [true; false; true]) (mat [[1;2];[3;4];[5;6]]) (mat [[10;20];[30;40];[50;60]]) = Some (mat [[1;2];[30;40];[5;6]]) /\
+  (* right_broadcasting=False: the mask (length 2) is aligned on the LAST axis: column 0 forked, column 1 current *)
+  twhere (false, [true; false]) (mat [[1;2];[3;4];[5;6]]) (mat [[10;20];[30;40];[50;60]]) = Some (mat [[1;20];[3;40];[5;60]]) /\
+  (* refused by torch: the per-individual mask (length 3) against the last axis (length 2), and conversely *)
+  twhere_torch (false, [true; false; true]) (mat [[1;2];[3;4];[5;6]]) (mat [[10;20];[30;40];[50;60]]) = None /\
+  twhere_torch (true, [true; false]) (mat [[1;2];[3;4];[5;6]]) (mat [[10;20];[30;40];[50;60]]) = None /\
+  (* refused by the assertion of [revert]: the two sides have different shapes *)
+  twhere_torch (true, [true; false]) (mat [[1;2];[3;4]]) (vec [1;2]) = None /\
+  (* accepted by torch, outside the contract (the shape changes): a (3, 1) value with [right_broadcasting=False] becomes (3, 2);
+     a value with one row is expanded to the length of the mask; a 0-d value becomes 1-d *)
+  twhere_torch (false, [true; false]) (mat [[1];[3];[5]]) (mat [[10];[30];[50]]) = Some (mat [[1;10];[3;30];[5;50]]) /\
+  twhere (false, [true; false]) (mat [[1];[3];[5]]) (mat [[10];[30];[50]]) = None /\
+  twhere_torch (true, [true; false; true]) (mat [[1;2]]) (mat [[10;20]]) = Some (mat [[1;2];[10;20];[1;2]]) /\
+  twhere (true, [true; false; true]) (mat [[1;2]]) (mat [[10;20]]) = None /\
+  twhere_torch (true, [true; false]) (T0 (AFin 1)) (T0 (AFin 10)) = Some (vec [1; 10]) /\
+  (* a weighted (2, 2) value with NON-boolean weights: value and weight of row 1 forked, of row 0 current *)
+  nselect (true, [false; true]) (NW (mat [[1;2];[3;4]]) (Some (mat [[2;0];[0;5]]))) (NW (mat [[10;20];[30;40]]) (Some (mat [[0;3];[1;1]])))
+    = Some (NW (mat [[10;20];[3;4]]) (Some (mat [[0;3];[0;5]]))) /\
+  (* the two rules that are NOT the code give something else on the same input *)
+  nselect_old_weight (true, [false; true]) (NW (mat [[1;2];[3;4]]) (Some (mat [[2;0];[0;5]]))) (NW (mat [[10;20];[30;40]]) (Some (mat [[0;3];[1;1]])))
+    = Some (NW (mat [[10;20];[3;4]]) (Some (mat [[2;0];[0;5]]))) /\
+  nselect_wrong_side (true, [false; true]) (NW (mat [[1;2];[3;4]]) (Some (mat [[2;0];[0;5]]))) (NW (mat [[10;20];[30;40]]) (Some (mat [[0;3];[1;1]])))
+    = Some (NW (mat [[10;2];[30;4]]) (Some (mat [[0;0];[1;5]]))) /\
+  (* a value weighted on ONE side only: torch gives the rows of the un-weighted side the OTHER side's weight; outside the contract *)
+  nselect_torch (true, [true; false]) (NW (vec [5;7]) None) (NW (vec [1;2]) (Some (vec [0;1]))) = Some (NW (vec [5;2]) (Some (vec [0;1]))) /\
+  nselect (true, [true; false]) (NW (vec [5;7]) None) (NW (vec [1;2]) (Some (vec [0;1]))) = None.
 Proof. exact nd_select_examples. Qed.
+Local Close Scope Z_scope.
 Print Assumptions C02_nd_select_examples.
 
 (** the partial-revert theorem on every n-d toy graph whose per-individual derived nodes are entry-wise (any number of parents,
@@ -566,3 +594,22 @@ Theorem C02_one_sided_weight_refuted :
   nfresh_of (mk_ngraph one_sided_nodes) nsem_torch true one_sided_ops 0 1 = Some (Some (NP (vec [0; 2]%Z))).
 Proof. exact one_sided_weight_refuted. Qed.
 Print Assumptions C02_one_sided_weight_refuted.
+
+(** the headline on n-d values: after a forked assignment, reads allowed by the contract and [revert(mask)] (right-broadcasting), row [j]
+    of EVERY doubly cached node of the forked sub-graph — plain or weighted, whatever its trailing shape — is the forked row where
+    [mask j] holds and the current row elsewhere, the value and the weight of a row coming from the same side ([rows_selected]) *)
+Theorem C02_partial_revert_nd_rows :
+  forall l : list dspec,
+  gwf_b (mk_ngraph l) = true -> entrywise_axis_b l = true ->
+  let g := mk_ngraph l in
+  forall (st : state nval) (i : nat) (o : option nval) (reads : list nat) (m : list bool),
+    Good g st -> mode st <> None -> i < gn g -> settable g i = true -> ind_axis g i = true ->
+    (forall r, In r reads -> axis_read_ok g i r) ->
+    let st1 := fst (set_state g true st i o) in
+    let st2 := gets g st1 reads in
+    shapes_ok g nsem (true, m) i (values st) (values st2) ->
+    let st3 := fst (revert_mask_state nsem st2 (true, m)) in
+    forall j old cur r, In j (i :: desc g i) -> values st j = Some old -> values st2 j = Some cur -> values st3 j = Some r ->
+      rows_selected m old cur r.
+Proof. exact partial_revert_nd_rows. Qed.
+Print Assumptions C02_partial_revert_nd_rows.
